@@ -337,13 +337,16 @@ example :
         = .stale "defect"
     ∧ (hsstep (hsrun ⟨a, Full.sinit false none⟩ [.q .defect, .resetNew b]) (.q .defect)).2 = .defect := by decide
 
-/-- **Numeric meaning (`answer_denotes`, chol and gso solver entry; round 4: no free `alg`, `c`).**  `p` is
-    a numeric problem whose facts the current symbolic input carries (`FactsF`: same size, `nullity` = the defect
-    the numeric model `Ls.solverOf (algOf k)` reports for `p`, `resolves` = its regularisation verdict).  After any
-    history incl. resets to other inputs, the value denoted by the symbolic answer (`denoteF` with the algorithm OF
-    THE MACHINE'S KIND and the configuration THE OBJECT HOLDS) is `answerF`: the field of the numeric solver model
-    on `p` under the caller's configuration (over the effective list when `p` is singular, as configured when
-    regular) — a function of `(p, configuration, query)` alone. -/
+/-- **Numeric meaning (`answer_denotes`, chol and gso solver entry; round 4: no free `alg`, `c`; round 6: no branch
+    on the defect).**  `p` is a numeric problem whose facts the current symbolic input carries (`FactsF`: same size,
+    `nullity` = the defect the numeric model `Ls.solverOf (algOf k)` reports for `p`, `resolves` = its regularisation
+    verdict).  After any history incl. resets to other inputs, the value denoted by the symbolic answer (`denoteF` with
+    the algorithm OF THE MACHINE'S KIND and the configuration THE OBJECT HOLDS) is `answerF`: the field, for the query,
+    of ONE run of the numeric solver model on `p` under the caller's configuration,
+    `fieldF (solverOf (algOf k) { p with reg := cfgReg useAll list }) op` — no branch on the defect; a function of the
+    problem, the configuration and the query alone (as `env_answer_denotes`).  That the symbolic machine distinguishes
+    the regular from the singular case (`.plain` / `.reg (effective list)`) is invisible in the value: `.all` and the
+    materialised list `1..n` are the same configuration for the solver models (`chol_all`, `gso_all`). -/
 theorem full_answer_denotes {K : Type} [Scalar K] (p : Ls.Problem K)
     (k : Kind) (inp0 : Full.Input) (ua : Bool) (l0 : Option (List Nat))
     (h0 : CfgOk k inp0 ua l0) (ops : List Full.HOp) (hops : ValidF k ⟨inp0, Full.init ua l0⟩ ops)
@@ -358,7 +361,8 @@ theorem full_answer_denotes {K : Type} [Scalar K] (p : Ls.Problem K)
   rw [hs, denoteF_spec k (algOf k) p _ h.inp _ op]
   exact directF_eq_answerF k p h.inp hF h.s op
 
-/-- … and for `AdjSVD` (a configured subset, else all: `V` stays plain) -/
+/-- … and for `AdjSVD` (a configured subset, else all: `V` stays plain): `answerS p sub list op
+    = fieldF (solverOf .svd { p with reg := cfgReg (!sub) list }) op` — no branch on the defect either -/
 theorem svd_answer_denotes {K : Type} [Scalar K] (p : Ls.Problem K)
     (inp0 : Full.Input) (sub : Bool) (l0 : Option (List Nat))
     (h0 : SCfgOk inp0 sub l0) (ops : List Full.HOp) (hops : ValidS ⟨inp0, Full.sinit sub l0⟩ ops)
@@ -373,9 +377,119 @@ theorem svd_answer_denotes {K : Type} [Scalar K] (p : Ls.Problem K)
   exact directF_eq_answerS p h.inp hF h.s op
 
 /-- the symbolic input OF a numeric problem carries its facts (non-vacuity of `FactsF` for every problem and
-    algorithm; `Full.inputOf` is what a driver that takes its facts from the numeric model runs) -/
+    algorithm; `Full.inputOf` is what `Driver/FullState.lean` runs the machines on since round 6) -/
 theorem full_facts_of_problem {K : Type} [Scalar K] (alg : Ls.Alg) (p : Ls.Problem K) :
     FactsF alg p (Full.inputOf alg p) := factsF_inputOf alg p
+
+/-- **Regular-case independence of the solver models (round 6; the analogue of the envelope's `core_regular`).**
+    chol / gso / svd: if the numeric solver model reports defect 0 for `(A, b)` under ONE regularisation `r`, it
+    returns the very same answer record — `x`, `r`, `[pvv]`, defect, `q_xx`, `q_bb`, `q_bx`, `lindep`, `cond` —
+    under EVERY regularisation `r'` the model covers (`RegCovered`: chol answers `NotModelled` for a list with an
+    index outside `1..n` whatever the defect, `Full.chol_out_of_range`; gso and svd: no condition — in the regular
+    case a short or out-of-range list neither throws nor is looked at). -/
+theorem full_solver_regular_independent {K : Type} [Scalar K] (alg : Ls.Alg) (halg : alg ≠ .env)
+    (p : Ls.Problem K) (r r' : Ls.Reg) (a : Ls.Answer K)
+    (h : Ls.solverOf alg { p with reg := r } = .ok a) (hd : a.defect = 0) (hr : RegCovered alg p.n r') :
+    Ls.solverOf alg { p with reg := r' } = .ok a :=
+  solver_regular alg halg p r r' a h hd hr
+
+/-- … hence on a regular problem `answerF` / `answerS` do not depend on the caller's configuration at all -/
+theorem full_answer_regular_config_free {K : Type} [Scalar K] (p : Ls.Problem K) (k : Kind) (ua ua' : Bool)
+    (l l' : Option (List Nat)) (a : Ls.Answer K)
+    (h : Ls.solverOf (algOf k) { p with reg := cfgReg ua l } = .ok a) (hd : a.defect = 0)
+    (hr : RegCovered (algOf k) p.n (cfgReg ua' l')) (op : Full.Op) :
+    answerF (algOf k) p ua' l' op = answerF (algOf k) p ua l op :=
+  answerF_regular k p ua ua' l l' a h hd hr op
+
+theorem svd_answer_regular_config_free {K : Type} [Scalar K] (p : Ls.Problem K) (sub sub' : Bool)
+    (l l' : Option (List Nat)) (a : Ls.Answer K)
+    (h : Ls.solverOf .svd { p with reg := cfgReg (!sub) l } = .ok a) (hd : a.defect = 0) (op : Full.Op) :
+    answerS p sub' l' op = answerS p sub l op :=
+  answerS_regular p sub sub' l l' a h hd op
+
+/-- whatever regularisation a solve of `p` succeeds under, the defect it reports is the same (the fact `nullity`
+    of `FactsF` is a fact of `(A, b)`) -/
+theorem full_defect_is_of_the_problem {K : Type} [Scalar K] (alg : Ls.Alg) (halg : alg ≠ .env) (p : Ls.Problem K)
+    (r r' : Ls.Reg) (a a' : Ls.Answer K)
+    (h : Ls.solverOf alg { p with reg := r } = .ok a) (h' : Ls.solverOf alg { p with reg := r' } = .ok a') :
+    a.defect = a'.defect :=
+  solver_defect_indep alg halg p r r' a a' h h'
+
+/-- **The driver's input is an instance (round 6).**  `Driver/FullState.lean` runs the chol / gso / svd machines on
+    `Full.inputOf alg p` (`p` = the numeric problem of the data set the object currently holds: size, defect and
+    resolution verdicts computed by the numeric solver model) and accepts an `info` line — size and `defect()` read
+    from the real class — only if `f.agrees alg p`.  Then the facts hypothesis of `full_answer_denotes` /
+    `svd_answer_denotes` holds for the input the machine runs on, the facts read from the implementation are that
+    input's, and the input is well formed (`Inv.wf`: defect ≤ unknowns). -/
+theorem full_driver_input_is_instance {K : Type} [Scalar K] (alg : Ls.Alg) (halg : alg ≠ .env) (p : Ls.Problem K)
+    (f : FInfo) :
+    f.agrees alg p = true →
+    FactsF alg p (Full.inputOf alg p)
+    ∧ f.n = (Full.inputOf alg p).n ∧ f.nullity = (Full.inputOf alg p).nullity
+    ∧ (Full.inputOf alg p).nullity ≤ (Full.inputOf alg p).n :=
+  fun ha => ⟨factsF_inputOf alg p, (FInfo.agrees_spec ha).1, (FInfo.agrees_spec ha).2, defectF_le alg halg p⟩
+
+/-- … and the configurations the driver creates objects with (`new`: `min_x()` / nothing stored, or a stored list)
+    are admissible (`CfgOk`, `SCfgOk`) for that input exactly when the list resolves the defect — the condition the
+    driver evaluates on the numeric model for every state (`outsideF` / `outsideS`; otherwise it prints `after-throw`
+    and the case is outside the quantifier of the `…_answer_denotes` theorems, but inside
+    `full_history_free_across_inputs`). -/
+theorem full_driver_cfg_ok {K : Type} [Scalar K] (k : Kind) (p : Ls.Problem K) (l : Option (List Nat)) :
+    let inp := Full.inputOf (algOf k) p
+    (inp.nullity = 0 ∨ inp.resolves (Full.eff inp (Full.init l.isNone l)) = true) →
+    CfgOk k inp l.isNone l ∧ SCfgOk (Full.inputOf .svd p) false none
+    ∧ ((Full.inputOf .svd p).nullity = 0 ∨ (Full.inputOf .svd p).resolves (l.getD []) = true →
+        SCfgOk (Full.inputOf .svd p) true l) := by
+  intro inp hc
+  refine ⟨⟨defectF_le (algOf k) (by cases k <;> simp [algOf]) p, hc, ?_, ?_, ?_⟩, ⟨Or.inr (Or.inl rfl), ?_, ?_⟩,
+    fun hs => ⟨?_, ?_, ?_⟩⟩
+  · cases l <;> simp [Full.init]
+  · intro _ hu
+    cases l with
+    | none => exact Or.inl rfl
+    | some l => simp [Full.init] at hu
+  · intro hh; simp [Full.init] at hh
+  · intro hh; simp [Full.sinit] at hh
+  · intro hh; simp [Full.sinit] at hh
+  · rcases hs with h0 | hr
+    · exact Or.inl h0
+    · exact Or.inr (Or.inr hr)
+  · intro hh; simp [Full.sinit] at hh
+  · intro hh; simp [Full.sinit] at hh
+
+/-- non-vacuity (exact arithmetic; `decide +kernel` runs `cholSolve` on the rationals): a regular 3×2 problem
+    (defined with the list `[1]`, which `inputOf` does not look at); the `info` facts `⟨2, 0⟩` agree with the numeric
+    model, an `info` line reporting defect 1 or size 3 is refused; under `min_x()` the model returns defect 0 and
+    `x = (4/3, 7/3)`, so by `full_answer_regular_config_free` every query has the same answer under the (too short —
+    in the regular case harmless) empty list; the driver's initial configuration is admissible; and a list with an
+    index outside `1..n` is where the chol MODEL stops (`NotModelled` although the system is regular: the
+    counterexample to an unconditional `chol_regular`). -/
+example :
+    let p : Ls.Problem Rat := { m := 3, n := 2, rows := #[#[(1, 1)], #[(2, 1)], #[(1, 1), (2, 1)]],
+                                cov := #[⟨3, 0, #[1, 1, 1]⟩], rhs := #[1, 2, 4], reg := .subset [1] }
+    (FInfo.mk 2 0).agrees .chol p = true ∧ (FInfo.mk 2 1).agrees .chol p = false ∧ (FInfo.mk 3 0).agrees .chol p = false
+    ∧ (∃ a, Ls.solverOf .chol { p with reg := cfgReg true none } = .ok a ∧ a.defect = 0 ∧ a.x = #[4/3, 7/3])
+    ∧ (∀ op, answerF .chol p false (some []) op = answerF .chol p true none op)
+    ∧ CfgOk .chol (Full.inputOf .chol p) false (some [1])
+    ∧ (match Ls.solverOf .chol { p with reg := .subset [3] } with | .error e => e == .NotModelled | .ok _ => false) = true := by
+  intro p
+  have hs : ∃ a, Ls.solverOf .chol { p with reg := cfgReg true none } = .ok a ∧ a.defect = 0 ∧ a.x = #[4/3, 7/3] := by
+    cases h : Ls.solverOf .chol { p with reg := cfgReg true none } with
+    | error e =>
+      have : (match Ls.solverOf .chol { p with reg := cfgReg true none } with | .ok _ => true | .error _ => false) = true := by
+        decide +kernel
+      rw [h] at this; exact absurd this (by simp)
+    | ok a =>
+      have h1 : (match Ls.solverOf .chol { p with reg := cfgReg true none } with
+          | .ok a => a.defect == 0 && a.x == #[4/3, 7/3] | .error _ => false) = true := by decide +kernel
+      rw [h] at h1
+      simp only [Bool.and_eq_true, beq_iff_eq] at h1
+      exact ⟨a, rfl, h1.1, h1.2⟩
+  obtain ⟨a, ha, hd, _⟩ := hs
+  have h0 : (Full.inputOf .chol p).nullity = 0 := by decide +kernel
+  refine ⟨by decide +kernel, by decide +kernel, by decide +kernel, ⟨a, ha, hd, ‹_›⟩,
+    fun op => full_answer_regular_config_free p .chol true false none (some []) a ha hd (fun _ => by decide) op,
+    (full_driver_cfg_ok .chol p (some [1]) (Or.inl h0)).1, by decide +kernel⟩
 
 /-- **`Adj`: history freedom across inputs, with the work matrices.**  After any history of queries,
     `set_algorithm`, `set(same or other data)` every answer is the one a brand-new `Adj` with the current
